@@ -14,6 +14,10 @@ CONSTANTS
   Pres <- T_Pres
   PreSpecSrcs <- T_PreSpecSrcs
   AliasAttrs = FALSE
+  ChainSrcs <- Q_ChainSrcs
+  ChainPairs <- Q_ChainPairs
+  ChainInexact = FALSE
+  StaleRate = FALSE
   DeclFiles <- T_DeclFiles
   HeaderRate = FALSE
   HistStride = 5
@@ -24,6 +28,7 @@ INVARIANT ImplRecIsFile
 INVARIANT ImplProduces
 INVARIANT ImplTimeAxis
 INVARIANT ImplFreqAxis
+INVARIANT ImplChainAxis
 INVARIANT ImplSourceTruthful
 INVARIANT ImplStartsAtSource
 INVARIANT ResampleDriftBounded
